@@ -75,4 +75,53 @@ def streamFrame (idlen : Nat) (data : List Byte) (firstReply : Option (Option (L
     | some m => m.getD []
     | none => [1, code])
 
+/- requester side: requests carry a fresh id; a reply (id with the mark) goes to the handler that waits for
+   exactly this id, once; everything else never reaches a reply handler -/
+
+structure ReqSt where
+  w : Nat := 0
+  pending : List (Nat × Nat) := []      -- (id, handler tag) still waiting
+  cur : Nat := 0                         -- id of the request being composed
+  inq : List (List Byte) := []           -- received messages not yet looked at
+  deriving Repr, DecidableEq, Inhabited
+
+/-- clear the reply mark -/
+def unmarkS : List Byte → List Byte
+  | [] => []
+  | b :: r => (b &&& 0x7f) :: r
+
+/-- is `i` acceptable as the id of a new request? -/
+def freshId (s : ReqSt) (i : Nat) : Bool := i ≥ 1 && fits i s.w && !(s.pending.any (·.1 == i))
+
+/-- who gets message `m`: `some (some tag)` the waiting reply handler, `some none` the plain event handler,
+    `none` nobody; and the pending set afterwards -/
+def deliver (s : ReqSt) (m : List Byte) : Option (Option Nat × List Byte) × ReqSt :=
+  if s.w = 0 then (some (none, m), s) else
+  let id := m.take s.w
+  if (id.headD 0).toNat ≥ 128 then
+    match decode (unmarkS id) with
+    | some rid =>
+      match s.pending.find? (·.1 == rid) with
+      | some (_, t) => (some (some t, m.drop s.w), { s with pending := s.pending.filter (·.1 != rid) })
+      | none => (none, s)
+    | none => (none, s)
+  else (some (none, m.drop s.w), s)
+
+def deliverAll : List (List Byte) → ReqSt → List (Option Nat × List Byte) → ReqSt × List (Option Nat × List Byte)
+  | [], s, log => ({ s with inq := [] }, log)
+  | m :: ms, s, log =>
+    let r := deliver s m
+    deliverAll ms r.2 (log ++ r.1.toList)
+
+/-- waiting for replies: only while some request is outstanding, and only replies are taken -/
+def awaitReplies : Nat → List (List Byte) → ReqSt → List (Option Nat × List Byte) → ReqSt × List (Option Nat × List Byte)
+  | 0, q, s, log => ({ s with inq := q }, log)
+  | _, [], s, log => ({ s with inq := [] }, log)
+  | fuel + 1, m :: ms, s, log =>
+    if s.pending.isEmpty ∨ s.w = 0 ∨ m.length < s.w ∨ ((m.take s.w).headD 0).toNat < 128 ∨ (decode (unmarkS (m.take s.w))).isNone then
+      ({ s with inq := m :: ms }, log)
+    else
+      let r := deliver s m
+      awaitReplies fuel ms r.2 (log ++ r.1.toList)
+
 end Mpt.ReplySpec
